@@ -17,11 +17,11 @@ from ..scen import REQ, RESP, hb
 LEVEL = 'exploration'
 RULE = ('each case = one endpoint (role x inbound configuration) fed up to 60 peer messages from a per-stream grammar with '
         'illegal productions enabled (DATA before HEADERS, HEADERS on never-promised even ids, second final response, '
-        'trailers without END_STREAM, frames after END_STREAM / RST_STREAM, WINDOW_UPDATE between them), local calls in '
+        'trailers without END_STREAM, frames after END_STREAM / RST_STREAM, WINDOW_UPDATE between them, completed pushes whose ids are promised a second time, promises on locally reset parents naming lower ids), local calls in '
         'between (requests, 1xx / final responses, pushes, resets), byte mutation, random chunking; non-trivial = at least 5 '
         'stream events checked by the automaton; distinct = hash of delivered bytes + local calls')
 MINIMA = {'events_checked': 100000, 'stream_events_checked': 50000, 'related_links_checked': 10000, 'streams_tracked': 20000,
-          }
+          'completed_pushes_generated': 2000, 'stream_id_reuse_productions': 1000}
 
 HEADER_EVENTS = ('RequestReceived', 'ResponseReceived', 'InformationalResponseReceived', 'TrailersReceived')
 
@@ -75,6 +75,9 @@ class EventGrammar(object):
             sid = getattr(e, 'stream_id', None)
             if n == 'PushedStreamReceived':
                 sid = None
+                if e.pushed_stream_id in self.state:
+                    probs.append(('C07:stream-id-promised-twice', 'PushedStreamReceived for stream %s, which already had events (state %s)' %
+                                  (e.pushed_stream_id, self.state[e.pushed_stream_id])))
                 self.pushed.add(e.pushed_stream_id)
                 self.state.setdefault(e.pushed_stream_id, 'start')
                 self.rep.count('streams_tracked')
@@ -145,6 +148,7 @@ def run_case(idx, rng, tier, rep):
     local = []
     dead = 0
     nstream_events = 0
+    reset_local, done_pushed, skipped = set(), [], []
     for i in range(rng.choice([10, 30, 60])):
         if dead > 1:
             break
@@ -172,9 +176,33 @@ def run_case(idx, rng, tier, rep):
             local.append((kind, sid))
         elif r < 0.35 and pg.open:
             sid = rng.choice(list(pg.open))
-            t.call('reset_stream', sid)
+            rr = t.call('reset_stream', sid)
             local.append(('reset', sid))
+            if rr.exc is None and e_client:
+                reset_local.add(sid)
         msg = illegal_production(rng, pg, e_client) if rng.random() < 0.12 else pg.step()
+        if e_client and pg.e_streams:
+            r2 = rng.random()
+            live_par = [x for x in pg.e_streams if x not in reset_local]
+            if r2 < 0.08 and live_par:
+                # a complete push (promise + response with END_STREAM), sometimes leaving an id unused below it
+                pid = pg.next_sid + (2 if rng.random() < 0.5 else 0)
+                if pid > pg.next_sid:
+                    skipped.append(pg.next_sid)
+                pg.next_sid = pid + 2
+                msg = wire.build_push_promise(rng.choice(live_par), pid, hb(REQ)) + wire.build_headers(pid, hb(RESP), end_stream=True)
+                done_pushed.append(pid)
+                rep.count('completed_pushes_generated')
+            elif r2 < 0.16 and done_pushed and live_par:
+                # stream ids used a second time: a promise on a locally reset parent naming a lower, unused id, then an id that
+                # was promised and completed before is promised again and gets a second response
+                parts = b''
+                if reset_local and skipped:
+                    parts += wire.build_push_promise(rng.choice(sorted(reset_local)), skipped.pop(0), hb(REQ))
+                old = rng.choice(done_pushed)
+                parts += wire.build_push_promise(rng.choice(live_par), old, hb(REQ)) + wire.build_headers(old, hb(RESP), end_stream=True)
+                msg = parts
+                rep.count('stream_id_reuse_productions')
         if rng.random() < 0.02:
             msg = gen.mutate_bytes(rng, msg)
         stream += msg
